@@ -231,6 +231,8 @@ def unforge_contract(data: bytes) -> str:
     :param data: encoded contract
     :returns: base58 encoded address and entrypoint (if exists) separated by `%`
     """
+    if len(data) < 22:
+        raise ValueError(f'address is 22 bytes long, got {len(data)} bytes')
     res = unforge_address(data[:22])
     if len(data) > 22:
         res += f'%{data[22:].decode()}'
